@@ -76,7 +76,7 @@ def build_unit(unit, cfgs=(), repo=None, drop_disturbed=False):
     b = vxbuild.build(path, repo, cfgs, drop_disturbed)
     os.makedirs(BUILD, exist_ok=True)
     tag = unit + ('@' + '+'.join(cfgs) if cfgs else '')
-    out = os.path.join(BUILD, tag.replace('@', '__') + ('__nohints' if drop_disturbed else '') + '.rs')
+    out = os.path.join(BUILD, tag.replace('@', '__').replace('+', '_') + ('__nohints' if drop_disturbed else '') + '.rs')
     text = '\n'.join(b.lines)
     tmp = out + '.%d.tmp' % os.getpid()
     with open(tmp, 'w') as f:
@@ -245,7 +245,9 @@ def count_obligations(fns):
 
 def run_verus(path, rlimit=None, only_fn=None, extra=()):
     cmd = [VERUS, path, '--output-json', '--time', '--error-format=json', '--triggers-mode', 'silent',
-           '--multiple-errors', '50', '--num-threads', str(THREADS)]
+           '--num-threads', str(THREADS)]
+    if '--multiple-errors' not in extra:
+        cmd += ['--multiple-errors', '50']
     if rlimit:
         cmd += ['--rlimit', str(rlimit)]
     if only_fn:
